@@ -12,6 +12,7 @@
 //	                the tokens of <e> as the parser sees them: lexer.Tokenize output without
 //	                WHITESPACE / LINE_COMMENT (parser.nextToken skips exactly those) and without the final EOF.
 //	                <tok> is the decimal value of token.Token (= the numbering of coq/Gen/TokenTable.v).
+//	-contexts FILE : the context-aware mode, see contexts.go.
 //
 // Build: cd /verif/harness && go build -tags verif -o /verif/build/exprdump ./cmd/exprdump
 package main
@@ -108,7 +109,16 @@ func tokensOf(src string) string {
 
 func main() {
 	tokens := flag.Bool("tokens", false, "print the token stream instead of the EXPLAIN subtree")
+	ctxFile := flag.String("contexts", "", "context table (name TAB template with {e}); evaluate every expression inside the contexts")
+	ctxShow := flag.Bool("show-calibration", false, "with -contexts: print the calibration (sentinel EXPLAIN) of every context and exit")
+	explainMode := flag.Bool("explain", false, "stdin: whole statements (hex); print the full EXPLAIN text of each")
 	flag.Parse()
+	if *explainMode {
+		os.Exit(runExplain())
+	}
+	if *ctxFile != "" {
+		os.Exit(runContexts(*ctxFile, *ctxShow))
+	}
 	in := bufio.NewReaderSize(os.Stdin, 1<<20)
 	out := bufio.NewWriterSize(os.Stdout, 1<<20)
 	defer out.Flush()
